@@ -774,6 +774,9 @@ func nearValue(r *RNG, leaf *Node, idc *int) *AV {
 			// fmt.Stringer to the engine - also when its text looks like a number
 			return &AV{K: AVStringer, ID: 0, S: pick(r, []string{"10", "2.50", "-1", "1e3", "abc", "", "1.0.0", "9007199254740993", s})}
 		}
+		if r.Chance(1, 20) {
+			return &AV{K: AVStringer, ID: *idc + 3000, S: s} // re-entrant (values.go)
+		}
 		return &AV{K: AVStringer, ID: *idc, S: s}
 	}
 	wrong := func() *AV {
@@ -1163,7 +1166,8 @@ func genObject(r *RNG, root *Node, opt ObjOpts) *AV {
 				cur = nx
 			}
 			if ok && cur.Get(p[cut]) == nil {
-				cur.Set(p[cut], pick(r, []*AV{avInt(5), avStr("s"), {K: AVOther, Tag: r.Intn(len(otherNames))}, {K: AVBool, B: true}, avFloat(1.5), {K: AVOther, Tag: 16}, {K: AVOther, Tag: 9}}))
+				cur.Set(p[cut], pick(r, []*AV{avInt(5), avStr("s"), {K: AVOther, Tag: r.Intn(len(otherNames))}, {K: AVBool, B: true}, avFloat(1.5), {K: AVOther, Tag: 16}, {K: AVOther, Tag: 9},
+					{K: AVStringerPanic, ID: 1900 + r.Intn(50)}, {K: AVStringerPanic, ID: 2900 + r.Intn(50)}, {K: AVStringer, ID: 900 + r.Intn(50), S: "mid"}}))
 			}
 			continue
 		}
